@@ -24,6 +24,16 @@ try:
     for line in out.splitlines():
         if line.startswith(("VIOLATION", "  ", "NOTE", "INCONCLUSIVE", "BUILD")):
             print("   " + line[:300])
+    # keep the first found replay for inspection (the scratch build dir is removed below)
+    keep = "/verif/replays/found/from-mutants"
+    fd = os.path.join(bd, "found")
+    if os.path.isdir(fd):
+        os.makedirs(keep, exist_ok=True)
+        for f in sorted(os.listdir(fd))[:3]:
+            try:
+                shutil.copy(os.path.join(fd, f), os.path.join(keep, os.path.basename(patch)[:-6] + "--" + f))
+            except OSError:
+                pass
     # keep found replays out of /verif/replays/found? they are git-ignored; fine.
 finally:
     subprocess.call(["git", "-C", "/repo", "worktree", "remove", "--force", wt])
